@@ -493,14 +493,17 @@ func (s *Session) Close() {
 	}
 	s.isClosing = true
 	s.sessionStateMu.Unlock()
+	verifYield("sess.close.pool", nil, 0)
 
 	if s.pool != nil {
 		s.pool.Close()
 	}
+	verifYield("sess.close.control", nil, 0)
 
 	if s.control != nil {
 		s.control.close()
 	}
+	verifYield("sess.close.events", nil, 0)
 
 	if s.nodeEvents != nil {
 		s.nodeEvents.stop()
@@ -509,10 +512,12 @@ func (s *Session) Close() {
 	if s.schemaEvents != nil {
 		s.schemaEvents.stop()
 	}
+	verifYield("sess.close.refresher", nil, 0)
 
 	if s.ringRefresher != nil {
 		s.ringRefresher.stop()
 	}
+	verifYield("sess.close.cancel", nil, 0)
 
 	if s.cancel != nil {
 		s.cancel()
